@@ -234,7 +234,12 @@ def rand_document(rng, allow_bad=True):
         p.addText(s())
         sp = text.Span(); sp.addText(s()); p.addElement(sp)
         if rng.random() < 0.5:
-            p.appendChild(CDATASection(s()))
+            # half of the time through the document's own node factories (createCDATASection raised NameError before 756dde0)
+            p.appendChild(CDATASection(s()) if rng.random() < 0.5 else d.createCDATASection(s()))
+        if rng.random() < 0.3:
+            p.appendChild(d.createTextNode(s()))
+        if rng.random() < 0.3:
+            p.addElement(d.createElement(text.Span))
         if rng.random() < 0.5:
             fe = Element(qname=(rng.choice([u'urn:example:foreign', u'']), u'thing'), check_grammar=False)
             fe.setAttrNS(rng.choice([u'urn:example:foreign', None]), u'attr', s())
